@@ -62,6 +62,16 @@ CLAIMED = {
  "C05": dict(cat="proof", tech="Lean 4 proofs about operand text (render/parse round trips, immediate interpretation) + Go assembler/objdump oracle judged in Lean",
    text="parseOp_asm (every well-formed operand reads back from its printed text), number-format round trips for all integers and widths, line_roundtrip, asmImm_value_partial (the value the CPU uses equals the constant under the decidable guard ImmFits) with its negation proved at the F6 witness, build_first_match / build_operands_kept; register names and format verbs regenerated. Measured on every run: sampled instances of every opcode (thorough: every form x 12) are built by the real form table, printed by the real printer, assembled by go tool asm and decoded by objdump; the Lean acceptor compares mnemonic, registers, memory operand, access width and sign-extended immediate with the operands given.",
    note=TB + "Proof-partial: the Go assembler's encoding is a measured oracle (binutils objdump as decoder). 18 classes of genuine divergence between what constructors accept and what the assembler does are listed as known findings (F6, F7, F5-ctor, F10-call-label, C05-*), each with a class regex."),
+
+ "C04": dict(cat="proof", tech="Lean 4 proofs about the read/write judgement and table structure + CPU measurement of every executable form judged in Lean",
+   text="covers_sound / judge_iff / mem_undeclared (the executable judgement reports exactly the observed-but-undeclared lanes), covers_specReads/specWrites (composition with C02's use/def specification), and decide +kernel facts over all 12 025 regenerated form rows (cancelling forms lead with two same-class registers, implicit operands resolve to registers, CMOVcc destinations are read-write, merge-masked destinations are read-write with the exact exception list, ...). Measured on every run on the host CPU: every executable form (11 798) x several register choices x randomised full register states through a trampoline; observed writes (byte-lane accurate) and observed reads (by single-register perturbation) must be covered by what the real InputRegisters/OutputRegisters declare.",
+   note=TB + "Proof-partial by nature: that the table's actions are what the processor does is measured on this host (AVX-512 machine; AVX512ER/MONITOR skipped; deny-list of control-transfer/privileged/stack opcodes in the evidence), not proved. 13 classes of genuine undeclared reads/writes are listed as known findings (F12 upper-lane zeroing, CMPXCHG implicit accumulator, PSIGN/AESDEC destinations, PHSUB cancelling flags, gather masks, ...)."),
+ "C06": dict(cat="proof", tech="Lean 4 proofs about build/addinstruction + decide +kernel over regenerated form and constructor tables + three-layer correspondence + avogen regeneration",
+   text="Generic (all operand lists): build succeeds iff some form matches, uses the first match, keeps operands in order; addinstruction adds one node or one error. Over the regenerated tables (24 shards, decide +kernel): for every one of the 3 205 constructor/method/global triples the documented form rows are exactly the forms of its opcode admitted by its suffixes, the bodies forward the arguments in order to the same opcode and suffix literal, the three name sets coincide, opcode ranges are contiguous. Correspondence: operand-class predicates exhaustively (451 operands x 40 types); the x86 constructor, the Context method and the package-level function are called by name and compared with each other and the model; avogen built from the tree regenerates the 7 checked-in generated files byte-identically.",
+   note=TB + "The by-name wrappers are generated from /repo's sources before the harness is compiled. internal/data (the instruction database inputs) is taken as given."),
+ "C08": dict(cat="proof", tech="Lean 4 complete decision of the regenerated mov table over the reachable input space + exhaustive correspondence + CPU measurement",
+   text="mov_ok_partial / mov_err / mov_first / gp_width_errors: over the complete reachable space (basic types x register classes/widths x load/store) every deduced opcode has the component's access width and Go's extension rule, and the default branch errors exactly when nothing matches; decide +kernel over the table regenerated from build/zmov.go. Every Load/Store input is run through the real Context.Load/Store and compared; the opcode semantics table is validated on the CPU (poisoned neighbours, boundary values, Go's own conversions).",
+   note=TB + "Proof-partial: movSem (what each MOV opcode does) is hand-written and measured on the CPU. Finding F7: 4-byte integer components with an XMM register select MOVQ, an 8-byte access (guard explicit in mov_ok_partial, negation proved at the witness)."),
 }
 
 def main():
